@@ -793,6 +793,62 @@ Ltac case_if C :=
   | |- erel (eval _ (if ?c then _ else _)) _ => destruct c eqn:C
   end.
 
+Lemma fzero_lit_like st e : expr_eqb e (FloatLiteral F0) = true ->
+  exists z, eval st e = Ok (z, []) /\ zero_like z.
+Proof. intros H. apply zero_lit. rewrite H. apply orb_true_r. Qed.
+
+Lemma ione_lit st e : expr_eqb e (IntegerLiteral 1) = true ->
+  exists z, eval st e = Ok (z, []) /\ one_like z.
+Proof. intros H. apply one_lit. now rewrite H. Qed.
+
+Lemma fone_lit st e : expr_eqb e (FloatLiteral F1) = true ->
+  exists z, eval st e = Ok (z, []) /\ one_like z.
+Proof. intros H. apply one_lit. rewrite H. apply orb_true_r. Qed.
+
+(** Rule solvers: each alternative must close the goal completely, so the order in which the
+    source lists its rules, and how it groups their conditions with [or], does not matter. *)
+Ltac split_or C :=
+  repeat match type of C with
+         | (_ || _) = true => apply orb_true_iff in C; destruct C as [C|C]
+         end.
+
+Ltac lit_facts := eauto using izero_lit, fzero_lit_like, ione_lit, fone_lit, zero_lit, one_lit.
+
+Ltac rule_add :=
+  first
+  [ solve [eapply drop_left with (P := zero_like);
+           [apply zero_like_closed | apply add_zero_l | intros; eapply arith_float_r; eauto | lit_facts | eauto | eauto]]
+  | solve [eapply drop_right with (P := zero_like);
+           [apply zero_like_closed | apply add_zero_r | intros; eapply arith_float_l; eauto | lit_facts | eauto | eauto]] ].
+
+Ltac rule_sub :=
+  solve [eapply drop_right with (P := zero_like);
+         [apply zero_like_closed | apply sub_zero_r | intros; eapply arith_float_l; eauto | lit_facts | eauto | eauto]].
+
+Ltac rule_mul :=
+  first
+  [ solve [eapply const_left with (P := zero_like) (cv := VInt 0);
+           [apply zero_like_closed | apply mul_zero_l | solve [eauto using izero_lit] | reflexivity | eauto]]
+  | solve [eapply const_right with (P := zero_like) (cv := VInt 0);
+           [apply zero_like_closed | apply mul_zero_r | solve [eauto using izero_lit] | reflexivity | eauto]]
+  | solve [eapply const_left with (P := fun v => v = VFloat F0) (cv := VFloat F0);
+           [apply fzero_closed
+           | intros ? ? ? -> ? Hm; apply mul_fzero_l in Hm; auto; subst; apply vle_refl
+           | solve [eauto using fzero_lit] | reflexivity | eauto]]
+  | solve [eapply const_right with (P := fun v => v = VFloat F0) (cv := VFloat F0);
+           [apply fzero_closed
+           | intros ? ? ? -> ? Hm; apply mul_fzero_r in Hm; auto; subst; apply vle_refl
+           | solve [eauto using fzero_lit] | reflexivity | eauto]]
+  | solve [eapply drop_left with (P := one_like);
+           [apply vle_one_like | apply mul_one_l | intros; eapply arith_float_r; eauto
+           | solve [eauto using ione_lit, fone_lit] | eauto | eauto]]
+  | solve [eapply drop_right with (P := one_like);
+           [apply vle_one_like | apply mul_one_r | intros; eapply arith_float_l; eauto
+           | solve [eauto using ione_lit, fone_lit] | eauto | eauto]] ].
+
+Ltac rules tac :=
+  repeat (let C := fresh "C" in case_if C; [split_or C; tac |]).
+
 Theorem peephole_expression_sound e : forall st,
   erel (eval st (peephole_expression e)) (eval st e).
 Proof.
@@ -826,43 +882,17 @@ Proof.
   - (* Add *)
     specialize (IHl st). specialize (IHr st). cbn [peephole_expression]. cbv zeta.
     change (eval st (Add l r)) with (bin2 (arith Z.add fadd true) (eval st l) (eval st r)).
-    case_if C1.
-    { eapply drop_left with (P := zero_like); eauto using zero_like_closed, add_zero_l, zero_lit.
-      intros; eapply arith_float_r; eauto. }
-    case_if C2.
-    { eapply drop_right with (P := zero_like); eauto using zero_like_closed, add_zero_r, zero_lit.
-      intros; eapply arith_float_l; eauto. }
+    rules rule_add.
     apply erel_bin_arith; auto using fadd_exact.
   - (* Subtract *)
     specialize (IHl st). specialize (IHr st). cbn [peephole_expression]. cbv zeta.
     change (eval st (Subtract l r)) with (bin2 (arith Z.sub fsub false) (eval st l) (eval st r)).
-    case_if C1.
-    { eapply drop_right with (P := zero_like); eauto using zero_like_closed, sub_zero_r, zero_lit.
-      intros; eapply arith_float_l; eauto. }
+    rules rule_sub.
     apply erel_bin_arith; auto using fsub_exact.
   - (* Multiply *)
     specialize (IHl st). specialize (IHr st). cbn [peephole_expression]. cbv zeta.
     change (eval st (Multiply l r)) with (bin2 (arith Z.mul fmul false) (eval st l) (eval st r)).
-    case_if C1.
-    { apply orb_true_iff in C1. destruct C1 as [C1|C1].
-      - eapply const_left with (P := zero_like) (cv := VInt 0);
-          eauto using zero_like_closed, mul_zero_l, izero_lit.
-      - eapply const_right with (P := zero_like) (cv := VInt 0);
-          eauto using zero_like_closed, mul_zero_r, izero_lit. }
-    case_if C2.
-    { apply orb_true_iff in C2. destruct C2 as [C2|C2].
-      - eapply const_left with (P := fun v => v = VFloat F0) (cv := VFloat F0);
-          eauto using fzero_closed, fzero_lit.
-        intros a b0 v -> Wb H. apply mul_fzero_l in H; auto. subst. apply vle_refl.
-      - eapply const_right with (P := fun v => v = VFloat F0) (cv := VFloat F0);
-          eauto using fzero_closed, fzero_lit.
-        intros a b0 v -> Wa H. apply mul_fzero_r in H; auto. subst. apply vle_refl. }
-    case_if C3.
-    { eapply drop_left with (P := one_like); eauto using vle_one_like, mul_one_l, one_lit.
-      intros; eapply arith_float_r; eauto. }
-    case_if C4.
-    { eapply drop_right with (P := one_like); eauto using vle_one_like, mul_one_r, one_lit.
-      intros; eapply arith_float_l; eauto. }
+    rules rule_mul.
     apply erel_bin_arith; auto using fmul_exact.
   - (* Equal *)
     specialize (IHl st). specialize (IHr st). cbn [peephole_expression]. cbv zeta.
